@@ -178,8 +178,14 @@ def motif_ambiguity(run, scratch):
     pairs = [(i, j) for i in range(n) for j in range(n)]
     seqs = {"a": "".join(motifs[i] for i, _ in pairs), "b": "".join(motifs[j] for _, j in pairs)}
     ncase = 0
-    for model in ("GY94", "MG94HKY", "CNFGTR"):
-        sm = get_model(model)
+    # an unknown position of a motif may be written '-', 'N' or '?', and the model may be built with recode_gaps left at its
+    # default or set to False: in MotifAmbig.tla all of these denote the same set of compatible states
+    variants = [(model, None, None) for model in ("GY94", "MG94HKY", "CNFGTR")] + [("GY94", None, "?"), ("GY94", False, "?")]  # (recode_gaps=False refuses a literal gap character: not a legal input there)
+    seqs0 = seqs
+    for model, recode, sym in variants:
+        vtag = ("" if recode is None else ":recode_gaps=False") + ("" if sym is None else ":unknown-written-as-" + sym)
+        sm = get_model(model) if recode is None else get_model(model, recode_gaps=recode)
+        seqs = seqs0 if sym is None else {k_: v_.replace("-", sym) for k_, v_ in seqs0.items()}
         lf = sm.make_likelihood_function(make_tree("(a:0.0,b:0.0)"))
         lf.set_alignment(make_aligned_seqs(seqs, moltype="dna"))
         if model == "GY94":
@@ -200,7 +206,7 @@ def motif_ambiguity(run, scratch):
             ncase += 1
             if abs(got[k] - want) > RTOL * want + 1e-15:  # exact zero expected for incompatible motifs: float noise ~1e-18
                 partial = any(("-" in m or "N" in m) and m not in ("---", "NNN") for m in (motifs[i], motifs[j]))
-                run.fail(f"motif-ambiguity:{model}:{'partially-known-motif' if partial else 'fully-known-or-unknown'}", {"model": model, "motif_a": motifs[i], "motif_b": motifs[j], "got": float(got[k]), "want": want, "column": k}, what="likelihood of a codon column is not the sum of pi over the states compatible with both tips")
+                run.fail(f"motif-ambiguity:{model}{vtag}:{'partially-known-motif' if partial else 'fully-known-or-unknown'}", {"model": model, "motif_a": motifs[i], "motif_b": motifs[j], "got": float(got[k]), "want": want, "column": k}, what="likelihood of a codon column is not the sum of pi over the states compatible with both tips")
         if want_pi is None:
             # relational for models whose word probabilities are derived: column (i,j) vs the same pair placed first
             for k, (i, j) in enumerate(pairs):
